@@ -95,10 +95,10 @@ def run(tier):
     r = vlib.rng(3)
     lal = vlib.build_lalrpop()
     gs = gram.corpus()
-    n = 30 if tier == "quick" else 1500
+    n = 30 if tier == "quick" else 500
     gs += [gram.random_grammar(r, i) for i in range(n)]
-    gs += [gram.nonlalr_family(r, i) for i in range(4 if tier == "quick" else 80)]
-    gs += [gram.nonlalr_matrix(r, i) for i in range(14 if tier == "quick" else 400)]
+    gs += [gram.nonlalr_family(r, i) for i in range(4 if tier == "quick" else 40)]
+    gs += [gram.nonlalr_matrix(r, i) for i in range(14 if tier == "quick" else 150)]
     gs = [g for g in gs if not g.recovery]
     # frozen watch list: LR(1)-but-not-LALR(1) grammars (fixed generator seed, independent of VERIF_SEED)
     # that the lane-table construction accepts on the pinned tree; they must stay accepted
